@@ -126,6 +126,12 @@ class Desc:
         return val
 
 
+ENUM_AGG_RE = re.compile(r'^(?:std::result::|std::option::|std::ops::|core::result::|core::option::|core::ops::)?'
+                         r'(?:Result|Option|ControlFlow)::<.*>::(Ok|Err|Some|None|Continue|Break)(?:\(.*\))?$')
+VARIANT_PASS = ('Clone>::clone', 'Option::as_ref', 'Result::as_ref', 'Option::as_mut', 'Option::copied', 'Option::cloned',
+                'Option::as_deref', 'Result::map_err')
+VARIANT_CALLS = (('Result::is_ok', 'Ok'), ('Result::is_err', 'Err'), ('Option::is_some', 'Some'), ('Option::is_none', 'None'))
+
 PROJ_RE = re.compile(r'^\(\((.+) as (\w+)\)\.(\d+): (.*)\)$')
 DEREF_RE = re.compile(r'^\(\*(.+)\)$')
 
@@ -341,6 +347,60 @@ class GuardFlow:
             nonconst = [x for x in dl if not (x[2] == 'assign' and re.match(r'^const ', x[3].rhs.strip()))]
             if consts and nonconst:
                 mixed[loc] = Desc((), 'none')
+        # variant-valued locals: `_r = Result::Err(..)` on one path and `_r = Result::Ok(..)` on another (the
+        # return place of an inlined `-> Result` / `-> Option` helper, an `if .. { Some(x) } else { None }`): the
+        # variant written is tracked as a binding and followed through moves, `Try::branch`, `discriminant`,
+        # `is_ok/is_err/is_some/is_none`, so that a guard's outcome crosses a `?` on a helper.  Locals that are
+        # ever mutably borrowed are left out (a callee could change the variant behind the binding).
+        mut_borrowed = set()
+        for bid, blk in self.body.blocks.items():
+            if blk.cleanup:
+                continue
+            for s in blk.stmts:
+                if s.kind == 'assign':
+                    m = re.match(r"^&(?:'\w+ )?mut (.*)$", s.rhs.strip())
+                    if m:
+                        bl = base_local(m.group(1))
+                        if bl is not None:
+                            mut_borrowed.add(bl)
+        vroots = set()
+        for loc, dl in defs.items():
+            if loc in pure or loc in mixed or loc in mut_borrowed:
+                continue
+            if any(x[2] == 'assign' and ENUM_AGG_RE.match(x[3].rhs.strip()) for x in dl):
+                vroots.add(loc)
+        vset = set(vroots)
+        changed = bool(vset)
+        while changed:
+            changed = False
+            for loc, dl in defs.items():
+                if loc in vset or loc in pure or loc in mixed or loc in mut_borrowed:
+                    continue
+                for (bid, idx, kind, obj) in dl:
+                    src = None
+                    if kind == 'assign':
+                        r = obj.rhs.strip()
+                        m = re.match(r'^discriminant\((.*)\)$', r)
+                        if m:
+                            src = m.group(1).strip()
+                        else:
+                            m = re.match(r"^(?:move |copy |&(?:'\w+ )?)(.*)$", r)
+                            if m:
+                                src = m.group(1).strip()
+                    elif kind == 'call' and obj.args:
+                        key = strip_generics(obj.callee)
+                        if key.endswith('as Try>::branch') or any(key.endswith(nm) for nm, _ in VARIANT_CALLS) \
+                                or any(key.endswith(p) for p in VARIANT_PASS):
+                            src = operand_place(obj.args[0])
+                    if src is not None:
+                        src = _strip_place(src)
+                        if is_plain_local(src) and int(src[1:]) in vset:
+                            vset.add(loc)
+                            changed = True
+                            break
+        for loc in vset:
+            mixed[loc] = Desc((), 'none')
+        self.variant_locals = vset
         return pure, mixed
 
     def _call_desc(self, t, descs):
@@ -447,6 +507,9 @@ class GuardFlow:
             if m:
                 iv = value_of_operand(m.group(1), world)
                 return (1 - iv) if iv in (0, 1) else UNKNOWN
+            m = ENUM_AGG_RE.match(rhs)
+            if m:
+                return ('V', m.group(1))
             m = re.match(r'^discriminant\((.*)\)$', rhs)
             if m:
                 bl = base_local(m.group(1))
@@ -454,6 +517,11 @@ class GuardFlow:
                     d = self._rvalue_desc(rhs, pure)
                     if d is not None:
                         return d.eval(world[0])
+                pl = _strip_place(m.group(1))
+                if is_plain_local(pl) and int(pl[1:]) in mixed:
+                    bv = value_of_local(int(pl[1:]), world)
+                    if isinstance(bv, tuple) and bv[0] == 'V':
+                        return VARIANT_INDEX.get(bv[1], UNKNOWN)
                 return UNKNOWN
             m = re.match(r"^&(?:'\w+ )?(?:mut )?(.*)$", rhs)
             if m:
@@ -464,6 +532,27 @@ class GuardFlow:
                 return value_of_place(rhs[len('deref_copy '):], world)
             if re.match(r'^[_(]', rhs):
                 return value_of_place(rhs, world)
+            return UNKNOWN
+
+        def variant_call(t, world):
+            """value of the dest of `Try::branch` / `is_ok` / pass-through calls on a variant-bound local"""
+            pl = operand_place(t.args[0])
+            if pl is None:
+                return UNKNOWN
+            pl = _strip_place(pl)
+            if not is_plain_local(pl):
+                return UNKNOWN
+            bv = value_of_local(int(pl[1:]), world)
+            key = strip_generics(t.callee)
+            if isinstance(bv, tuple) and bv[0] == 'V':
+                if key.endswith('as Try>::branch'):
+                    return ('V', 'Continue' if bv[1] in ('Ok', 'Some', 'Continue') else 'Break')
+                for nm, v in VARIANT_CALLS:
+                    if key.endswith(nm):
+                        return 1 if bv[1] == v else 0
+                for p in VARIANT_PASS:
+                    if key.endswith(p):
+                        return bv
             return UNKNOWN
 
         def transfer_block(bid, world, lo=0, hi=None):
@@ -525,7 +614,10 @@ class GuardFlow:
                         if bl in mixed and not (bid == gb and not stmt_guard):
                             b2 = list(binds)
                             nd = self._call_desc(t, pure)
-                            b2[mixed_locals.index(bl)] = nd.eval(atom) if nd is not None else UNKNOWN
+                            nv = nd.eval(atom) if nd is not None else UNKNOWN
+                            if nd is None and t.args and is_plain_local(t.dest.strip()):
+                                nv = variant_call(t, (atom, binds))
+                            b2[mixed_locals.index(bl)] = nv
                             binds = tuple(b2)
                     if bid == gb and not stmt_guard:
                         for s in t.targets:
@@ -540,6 +632,8 @@ class GuardFlow:
                         succ_worlds.setdefault(s, set()).add((atom, binds))
                 elif t.kind == 'switchInt':
                     v = value_of_operand(t.discr, (atom, binds))
+                    if isinstance(v, tuple):
+                        v = UNKNOWN
                     listed = [c for c, _ in t.cases if c != 'otherwise']
                     for c, s in t.cases:
                         if v is UNKNOWN:
